@@ -182,3 +182,101 @@ func (a *vNeverSetAuth) Execute() error { return nil }
 func (a *vNeverSetAuth) WithConfig(conf map[string]any) (Authenticator, error) {
 	return &vNeverSetAuth{id: a.id}, nil
 }
+
+// ---- element-wise copies into a FRESH container, in every spelling: all are "fresh container, elements shared at
+// depth 1" — what maps.Clone makes.  vMergeCloneAuth and vMergeCopyAuth must produce identical rows (false alarm of
+// 2026-10-02: maps.Copy into a fresh map was reported as possibly sharing memory with the receiver's map).
+type vTpl interface{ Render() string }
+
+type vMergeCloneAuth struct {
+	id string
+	v  map[string]vTpl
+}
+
+func (a *vMergeCloneAuth) Execute() error { return nil }
+func (a *vMergeCloneAuth) WithConfig(conf map[string]any) (Authenticator, error) {
+	other := map[string]vTpl{}
+	for k := range conf {
+		other[k] = nil
+	}
+
+	res := maps.Clone(a.v)
+	for key, value := range other {
+		res[key] = value
+	}
+
+	return &vMergeCloneAuth{id: a.id, v: res}, nil
+}
+
+type vMergeCopyAuth struct {
+	id string
+	v  map[string]vTpl
+}
+
+func (a *vMergeCopyAuth) Execute() error { return nil }
+func (a *vMergeCopyAuth) WithConfig(conf map[string]any) (Authenticator, error) {
+	other := map[string]vTpl{}
+	for k := range conf {
+		other[k] = nil
+	}
+
+	res := make(map[string]vTpl, len(a.v)+len(other))
+	maps.Copy(res, a.v)
+	maps.Copy(res, other)
+
+	return &vMergeCopyAuth{id: a.id, v: res}, nil
+}
+
+// the same WITHOUT any copy: the receiver's map is written and shared
+type vMergeNoCopyAuth struct {
+	id string
+	v  map[string]vTpl
+}
+
+func (a *vMergeNoCopyAuth) Execute() error { return nil }
+func (a *vMergeNoCopyAuth) WithConfig(conf map[string]any) (Authenticator, error) {
+	other := map[string]vTpl{}
+	for k := range conf {
+		other[k] = nil
+	}
+
+	res := a.v
+	maps.Copy(res, other)
+
+	return &vMergeNoCopyAuth{id: a.id, v: res}, nil
+}
+
+// further spellings of the shallow copy, one per field
+type vElemCopyAuth struct {
+	viaCopy   []*vInner          // make + copy()
+	viaAppend []*vInner          // append(fresh, src...)
+	viaInsert []*vInner          // slices.Insert on a fresh slice
+	viaConcat []*vInner          // slices.Concat
+	viaLoop   map[string]*vInner // make + assignment loop
+	viaSeq    map[string]*vInner // maps.Insert(fresh, maps.All(src))
+	viaSorted []string           // slices.Sorted(maps.Keys(src))
+}
+
+func (a *vElemCopyAuth) Execute() error { return nil }
+func (a *vElemCopyAuth) WithConfig(conf map[string]any) (Authenticator, error) {
+	c1 := make([]*vInner, len(a.viaCopy))
+	copy(c1, a.viaCopy)
+
+	c2 := append(make([]*vInner, 0, len(a.viaAppend)+len(conf)), a.viaAppend...)
+
+	c3 := slices.Insert([]*vInner(nil), 0, a.viaInsert...)
+
+	c4 := slices.Concat(a.viaConcat, []*vInner{{n: len(conf)}})
+
+	c5 := make(map[string]*vInner, len(a.viaLoop))
+	for k, p := range a.viaLoop {
+		c5[k] = p
+	}
+
+	c6 := map[string]*vInner{}
+	maps.Insert(c6, maps.All(a.viaSeq))
+
+	c7 := slices.Sorted(maps.Keys(a.viaSeq))
+
+	return &vElemCopyAuth{viaCopy: c1, viaAppend: c2, viaInsert: c3, viaConcat: c4, viaLoop: c5, viaSeq: c6, viaSorted: c7}, nil
+}
